@@ -10,6 +10,7 @@ import (
 
 	libjson "github.com/jsightapi/jsight-schema-go-library/formats/json"
 	js "github.com/jsightapi/jsight-schema-go-library/notations/jschema"
+	libregex "github.com/jsightapi/jsight-schema-go-library/notations/regex"
 	"github.com/jsightapi/jsight-schema-go-library/rules/enum"
 
 	"verif/gen"
@@ -56,6 +57,8 @@ func mk(kind, text string) lenner {
 		return s
 	case "json":
 		return libjson.New("d", text, libjson.AllowTrailingNonSpaceCharacters()).(lenner)
+	case "regex":
+		return libregex.New("@r", text)
 	}
 	return enum.New("@e", text)
 }
@@ -141,7 +144,18 @@ func TestLen(t *testing.T) {
 		var c Case
 		var rootContainer bool
 		var rootBegin, rootEnd int
-		switch rapid.IntRange(0, 3).Draw(t, "kind") {
+		switch rapid.IntRange(0, 4).Draw(t, "kind") {
+		case 4:
+			c.Kind = "regex"
+			re := gen.GenRegex(t, rapid.IntRange(1, 2).Draw(t, "redepth"), "re")
+			pat := strings.ReplaceAll(re.Pattern(), "/", `\/`)
+			if rapid.IntRange(0, 2).Draw(t, "endBackslash") == 0 {
+				pat += `\\` // a pattern ending in an escaped backslash: the next slash still closes it
+			}
+			if rapid.Bool().Draw(t, "anchor") {
+				pat = "^" + pat
+			}
+			c.S = "/" + pat + "/"
 		case 0, 1:
 			c.Kind = "schema"
 			var m *ref.SNode
@@ -186,12 +200,13 @@ func TestLen(t *testing.T) {
 				}
 			}
 			sep := rapid.SampledFrom([]string{", ", ",", ",\n  "}).Draw(t, "isep")
-			c.S = "[" + strings.Join(toks, sep) + "]"
+			lead := rapid.SampledFrom([]string{"", "", " ", "\n", "\t ", " \r\n"}).Draw(t, "enumLead")
+			c.S = lead + "[" + strings.Join(toks, sep) + "]"
 			if rapid.IntRange(0, 4).Draw(t, "cmt") == 0 {
 				c.S += " // trailing comment"
 			}
 			rootContainer = n > 0
-			rootBegin, rootEnd = 0, strings.LastIndex(c.S, "]")
+			rootBegin, rootEnd = strings.Index(c.S, "["), strings.LastIndex(c.S, "]")
 		}
 		// negative half
 		if rootContainer && rapid.IntRange(0, 4).Draw(t, "negative") == 0 {
@@ -204,7 +219,7 @@ func TestLen(t *testing.T) {
 			return
 		}
 		seps := []string{" ", "  ", "\t", "\n", "\r\n", "\n\n", " \n ", "\n\t"}
-		if endsWithBracketOrQuote(c.S) {
+		if endsWithBracketOrQuote(c.S) || c.Kind == "regex" {
 			seps = append(seps, "", "")
 		}
 		c.Sep = rapid.SampledFrom(seps).Draw(t, "sep")
